@@ -33,7 +33,7 @@ RULE = ("one run = one fresh interpreter with a seeded PYTHONHASHSEED, simulated
 COMPONENTS = {
     "real": ["fcp.parser", "fcp.verifier + plug-in checks", "fcp.encoding", "fcp.serde + fcp.reflection",
              "fcp_dbc / fcp_can_c / fcp_cpp / fcp_nop Generator.generate", "jinja2 / cantools as used by the plug-ins"],
-    "stub": ["PYTHONHASHSEED of the worker interpreter", "simulated datetime/pwd/socket behind fcp_cpp.generator's globals",
+    "stub": ["PYTHONHASHSEED and TZ of the worker interpreter", "process-wide simulated wall clock (datetime.datetime/date, time.time/localtime/strftime...), user (pwd/getpass/os.getlogin/USER) and host (socket/platform/os.uname) installed before the code under test is imported",
              "os.listdir returning a seeded permutation", "scratch output directory for fcp_can_c"],
 }
 ASSUMPTIONS = [
@@ -108,6 +108,7 @@ def run_worker(workload, hashseed):
     env["PYTHONHASHSEED"] = str(hashseed)
     env["PYTHONPATH"] = str(VERIF_ROOT)
     env["PYTHONDONTWRITEBYTECODE"] = "1"
+    env["TZ"] = workload.get("tz", "UTC")
     p = subprocess.run([sys.executable, "-c", "from simfcp.detworker import main; main()"], input=json.dumps(workload),
                        capture_output=True, text=True, env=env, cwd=str(VERIF_ROOT), timeout=300)
     lines = [l for l in p.stdout.splitlines() if l.startswith("RESULT ")]
@@ -146,7 +147,8 @@ def gen_run(rng, pool):
                             (1_700_000_000 - (1_700_000_000 % 86400) + 86399, 2)])     # one second before midnight
     cfg = {"hashseed": hashseed, "clock0": clock0,
            "user": rng.choice(["simuser", "root", "ci-runner", "j.doe"]), "host": rng.choice(["simhost", "build-17.example.org", "x"]),
-           "listperm": rng.choice([0, rng.randint(1, 1 << 30)])}
+           "listperm": rng.choice([0, rng.randint(1, 1 << 30)]),
+           "tz": rng.choice(["UTC", "UTC", "Asia/Tokyo", "America/Los_Angeles", "Pacific/Kiritimati"])}
     n = rng.randint(5, 15)
     ops = []
     swarm = {k: rng.random() < 0.7 for k in ("parse_text", "parse_file", "parse_broken", "verify", "layout", "reflection", "clock")}
@@ -193,7 +195,7 @@ def compare(base, ob):
 def judge_run(pool, cfg, sids, ops, probes=None, tr=None, distinct=None):
     probes = probes if probes is not None else Counter()
     w = {"schemas": {s: pool[s] for s in sids}, "ops": ops, "clock0": cfg["clock0"], "user": cfg["user"],
-         "host": cfg["host"], "listperm": cfg["listperm"]}
+         "host": cfg["host"], "listperm": cfg["listperm"], "tz": cfg.get("tz", "UTC")}
     out = run_worker(w, cfg["hashseed"])
     viol = []
     evals = 0
@@ -312,8 +314,8 @@ def minimise(v):
             if len(head) == 1 and fails([last], cfg):
                 head = []
     ops = head + [last]
-    for k, pristine in (("hashseed", 0), ("clock0", 1_700_000_000), ("user", "simuser"), ("host", "simhost"), ("listperm", 0)):
-        if cfg[k] != pristine:
+    for k, pristine in (("hashseed", 0), ("clock0", 1_700_000_000), ("user", "simuser"), ("host", "simhost"), ("listperm", 0), ("tz", "UTC")):
+        if cfg.get(k, pristine) != pristine:
             c2 = dict(cfg, **{k: pristine})
             if fails(ops, c2):
                 cfg = c2
@@ -322,6 +324,6 @@ def minimise(v):
     out = dict(v, workload=dict(w, ops=ops, cfg=cfg), minimised=True)
     vs = [x for x in check_workload(out["workload"]) if x["signature"] == key]
     if vs:
-        needs = [k for k, p in (("hashseed", 0), ("clock0", 1_700_000_000), ("user", "simuser"), ("host", "simhost"), ("listperm", 0)) if cfg[k] != p]
+        needs = [k for k, p in (("hashseed", 0), ("clock0", 1_700_000_000), ("user", "simuser"), ("host", "simhost"), ("listperm", 0), ("tz", "UTC")) if cfg.get(k, p) != p]
         out["message"] = vs[0]["message"] + f" [minimised: {len(ops)} op(s); non-pristine ingredients still needed: {needs or 'none (history / tree reuse only)'}]"
     return out
